@@ -450,7 +450,7 @@ func terminationOf(i *value.VmInterrupt) bool {
 @*/
 
 /*@ func (self *Core) Run
-    serves C01, C09, C10, C11, C02, C16
+    serves C01, C08, C09, C10, C11, C02, C16
     assumepre runInstruction
     assert @handler-of-live-frame after state := self.tryStates[ :: state.frameIndex < uint(len(self.CallStack))
     assert @catch-frames after "message":  value.NewValueString :: uint(len(self.CallStack)) == state.frameIndex+1 && self.CallStack[len(self.CallStack)-1] == catchLocation
